@@ -318,7 +318,7 @@ func checkProperty(p *Program, prop, tier string, timeoutS, workers int, start t
 	}
 	if prop == "C20" {
 		results = append(results, p.structObligations())
-	} else if prop == "C05" || prop == "C17" || prop == "C11" || prop == "C19" {
+	} else if prop == "C05" || prop == "C17" || prop == "C11" || prop == "C19" || prop == "C04" || prop == "C02" {
 		// the routing and module-wiring obligations also carry C05, C17, C11, C19
 		sr := p.structObligations()
 		var keep []*Obl
@@ -438,6 +438,28 @@ func checkProperty(p *Program, prop, tier string, timeoutS, workers int, start t
 						}
 					}
 				}
+			}
+			// stateless validation: a handler in the cone assumes (a2_validated) what the ValidateBasic method of its message
+			// establishes; that method's contract (and, through the callee rule, the validators it calls) joins the cone
+			for _, r := range results {
+				if r.Contract == nil || r.Contract.Kind != "func" || !strings.HasPrefix(r.Contract.Short, "handleMsg") {
+					continue
+				}
+				vb := "(" + modPath + "/types." + strings.TrimPrefix(r.Contract.Short, "handle") + ").ValidateBasic"
+				c, ok := p.contracts[vb]
+				if !ok || done[vb] {
+					continue
+				}
+				done[vb] = true
+				changed = true
+				cr := p.verifyFunc(c)
+				for _, o := range cr.Obls {
+					if !hasProp(o.Props, prop) {
+						o.Props = append(append([]string{}, o.Props...), prop)
+					}
+				}
+				results = append(results, cr)
+				funcsUnder = append(funcsUnder, cr.Name+" (establishes the a2_validated precondition of a handler in the cone)")
 			}
 			// contracts used by the newly added proofs join the cone like any other callee
 			for _, r := range results {
@@ -627,6 +649,9 @@ func reportFailure(p *Program, prop, replayDir string, oc *oblOutcome, note stri
 	var ro *replayOutcome
 	if oc.Status == "failed" {
 		ro = tryReplay(p, oc, replayDir)
+		if ro == nil {
+			ro = tryReplayGeneric(p, oc, replayDir)
+		}
 	}
 	rec := map[string]interface{}{
 		"property":      prop,
